@@ -322,6 +322,24 @@ def env_tables() -> List[str]:
     reset = find_method(cls, "reset")
     rebuilt = [ast.unparse(s) for s in reset.body if isinstance(s, (ast.Assign, ast.AnnAssign)) and ast.unparse(s.targets[0] if isinstance(s, ast.Assign) else s.target) == "self.game"]
     out.append(f"def envResetRebuildsGame : List String := {lean_list([q(x) for x in rebuilt])}")
+    # the flatten guard of ProxyAgent (F-C02-2 repaired): checked when the agent is built
+    itree = parse("game/agent/interface.py")
+    post = find_method(class_def(itree, "ProxyAgent"), "model_post_init")
+    guard = [ast.unparse(s.test) for s in post.body if isinstance(s, ast.If)]
+    raises = [type(s.body[0]).__name__ + ":" + (ast.unparse(s.body[0].exc.func) if isinstance(s.body[0], ast.Raise) and isinstance(s.body[0].exc, ast.Call) else "?")
+              for s in post.body if isinstance(s, ast.If)]
+    calls_super_first = bool(post.body) and any("super().model_post_init" in ast.unparse(s) for s in post.body[:2])
+    out.append(f"def proxyAgentFlattenGuard : List String := {lean_list([q(g) for g in guard])}")
+    out.append(f"def proxyAgentFlattenGuardRaises : List String := {lean_list([q(g) for g in raises])}")
+    out.append(f"def proxyAgentGuardAfterManagersBuilt : Bool := {'true' if calls_super_first else 'false'}")
+    from harness.extract.util import find_function
+    hed = find_function(itree, "_has_empty_dict")
+    lines = []
+    for st in hed.body:
+        if isinstance(st, ast.Expr) and isinstance(st.value, ast.Constant):
+            continue
+        lines += [l.strip() for l in ast.unparse(st).splitlines()]
+    out.append(f"def hasEmptyDictBody : List String := {lean_list([q(l) for l in lines])}")
     return out
 
 
